@@ -131,6 +131,25 @@ def r2_segment_attachment(ctx):
                              'walk() returns, so the error is attached to the previous segment (wrong position in AK3/IK3)', note=note)
     if total < 5:
         raise AnalysisError('map_walker: only %d seg_error sites found' % total)
+    # x12n_document: the segment about to be validated was registered with the error tree in this iteration - element
+    # errors of node.is_valid() are attached to the handler's current segment node, which otherwise is still the
+    # previous segment (or the ST/GS loop node): verdict False but no AK3/IK3 for the segment at fault
+    fn = ctx.func('x12n_document', 'x12n_document')
+    g = ctx.cfg(fn)
+    REG = ('add_seg', 'add_isa_loop', 'add_gs_loop', 'add_st_loop', 'close_isa_loop', 'close_gs_loop', 'close_st_loop')
+    valid_nodes = [nd for nd in g.nodes if any(isinstance(x, ast.Call) and A.call_target(x)[1] == 'is_valid' and x.args and path_of(x.args[0]) == 'seg'
+                                               for x in g.walk_exprs(nd))]
+    heads = [nd for nd in g.nodes if nd.kind == 'for' and norm(nd.stmt.iter) == 'src']
+    if len(valid_nodes) != 1 or len(heads) != 1:
+        raise AnalysisError('x12n_document: segment loop / node.is_valid(seg, errh) not found (%d/%d)' % (len(heads), len(valid_nodes)))
+
+    def registers(nd):
+        return any(isinstance(x, ast.Call) and A.call_target(x)[0] == 'errh' and A.call_target(x)[1] in REG for x in g.walk_exprs(nd))
+    path = g.find_path(heads[0], lambda nd: nd is valid_nodes[0], blocked=registers)
+    yield Ob('x12n_document:x12n_document every validated segment was registered with the error tree first', path is None, ctx.floc(fn, valid_nodes[0].stmt),
+             '' if path is None else 'node.is_valid(seg, errh) is reached without add_seg/add_*_loop/close_*_loop in this iteration (via lines %s): '
+             'element errors of that segment are attached to the previous segment or loop node, so the acknowledgement does not locate them'
+             % ', '.join(str(nd.ast.lineno) for nd in path if getattr(nd, 'ast', None) is not None and hasattr(nd.ast, 'lineno'))[-120:])
 
 
 def _only_for_not_used(g, node):
